@@ -223,3 +223,23 @@ Example ex_bad_index :
   transparent_call ascii_cc {| lit := [123; 49; 125];
                                args := [ {| alias := None; aexpr := EIdent [95; 48] |} ] |} = None.
 Proof. vm_compute. reflexivity. Qed.
+
+(** ** Link to std's reading of the literal (uses C03): whenever the attribute delegates, [format_args!]
+    itself accepts the literal as exactly one placeholder, flag-free, of the same trait - so a literal
+    std rejects is never silently accepted through the delegating path. *)
+From Verif Require C03.StdParse C03.Props.
+Theorem delegation_agrees_with_std cc (Hcc : CC_ok cc) a e tr :
+  transparent_call cc a = Some (e, tr) ->
+  exists sa, StdParse.std_parse cc (lit a) = Some [sa] /\
+             spec_has_modifiers (StdParse.sa_spec sa) = false /\
+             trait_name (sp_ty (StdParse.sa_spec sa)) = tr.
+Proof.
+  intros H. apply transparent_call_sound in H.
+  destruct H as (f & Hf & Hm & Htr & Hcase).
+  assert (Harg : match f_arg f with Some (AInt n) => n = 0 | _ => True end).
+  { destruct Hcase as [[[Ha|Ha] _] | [(n & Ha & _) | (n & x & Ha & _)]]; rewrite Ha; auto. }
+  destruct (Props.C03_no_silent_accept cc Hcc (lit a) f Hf Hm Harg) as (sa & Hs & Hspec & _).
+  exists sa. split; [exact Hs|]. rewrite Hspec. unfold Props.spec_or_default.
+  unfold has_modifiers in Hm. unfold trait_of in Htr. subst tr.
+  destruct (f_spec f) as [s|]; [split; [exact Hm|reflexivity] | split; reflexivity].
+Qed.
